@@ -539,8 +539,22 @@ def _check_tap_alignment(run, scope, what, tap, actions, ll, step_mask, forced, 
     return exp, ent
 
 
-def _compare(run, scope, variant, out1, out2, forced, plan, h0=None):
+def _raw_scale(tap):
+    """largest finite raw-logit magnitude seen by a tap: float32 noise of the network itself scales with it
+    (unscaled CVRPTW features give raw logits in the thousands before the tanh clip); two runs in different
+    batch layouts legitimately differ by a few ulps of that magnitude"""
+    m = 0.0
+    for r in getattr(tap, "records", []):
+        lg = r.logits
+        f = lg[torch.isfinite(lg)]
+        if f.numel():
+            m = max(m, float(f.abs().max()))
+    return m
+
+
+def _compare(run, scope, variant, out1, out2, forced, plan, h0=None, raw_scale=0.0):
     """Oracle (ii): run 2 (evaluate) reproduces run 1 from step `forced` on."""
+    ulp = 16 * 1.1920929e-07 * raw_scale
     a1 = out1["actions"]
     ll1, ll2 = out1["log_likelihood"].detach().double(), out2["log_likelihood"].detach().double()
     R, T1 = a1.shape
@@ -556,7 +570,7 @@ def _compare(run, scope, variant, out1, out2, forced, plan, h0=None):
             for t in range(forced, max(T1, T2)):
                 x = float(ll1[i, t]) if t < T1 else 0.0
                 y = float(ll2[i, t]) if t < T2 else 0.0
-                if abs(x - y) > tol(x, 0.0) * 4:
+                if abs(x - y) > tol(x, 0.0) * 4 + ulp:
                     run.violate(scope, "evaluate_roundtrip", f"[{variant}] row {i} step {t}: decode-time log-prob "
                                 f"{x!r} != evaluate-mode log-prob {y!r} of the same action", constraint="per_step",
                                 variant=variant, row=i, step=t, got=y, ref=x, mode=plan["mode"], k=plan["k"],
@@ -566,7 +580,7 @@ def _compare(run, scope, variant, out1, out2, forced, plan, h0=None):
         s2 = ll2[:, forced:].sum(-1)
         for i in range(R):
             x, y = float(ll1[i]), float(s2[i])
-            if abs(x - y) > tol(x, 0.0, T) * 4:
+            if abs(x - y) > tol(x, 0.0, T) * 4 + ulp * T:
                 run.violate(scope, "evaluate_roundtrip", f"[{variant}] row {i}: decode-time log-likelihood {x!r} != "
                             f"evaluate-mode sum {y!r} over the same actions", constraint="sum", variant=variant,
                             row=i, got=y, ref=x, mode=plan["mode"], k=plan["k"], select_best=plan["select_best"],
@@ -585,7 +599,7 @@ def _compare(run, scope, variant, out1, out2, forced, plan, h0=None):
         for i in range(R):
             x = float(e1[i])
             y = float(e2[i]) - (float(h0[i]) if (forced and h0 is not None) else 0.0)
-            if abs(x - y) > tol(x, 0.0, T) * 4:
+            if abs(x - y) > tol(x, 0.0, T) * 4 + ulp * T:
                 run.violate(scope, "evaluate_roundtrip", f"[{variant}] row {i}: entropy {x!r} at decode time, {y!r} in "
                             "evaluate mode (forced step excluded)", constraint="entropy", variant=variant, row=i,
                             got=y, ref=x, mode=plan["mode"], k=plan["k"])
@@ -707,7 +721,7 @@ def _execute_roundtrip(run):
         if forced:
             lp0 = tap2.records[0].logprobs.double().numpy()
             h0 = [ref_entropy(lp0[i]) for i in range(R)]
-        _compare(run, scope, vname, out1, out2, forced, plan, h0)
+        _compare(run, scope, vname, out1, out2, forced, plan, h0, raw_scale=_raw_scale(tap2))
         run.log.add("run2", vname, _hexes(out2["log_likelihood"]))
         run.probe({"same": "roundtrip_same", "expanded": "roundtrip_expanded",
                    "num_samples": "roundtrip_num_samples"}[vname])
